@@ -60,6 +60,16 @@ class FuncInfo:
         return '<Func %s>' % self.key
 
 
+class AliasFuncInfo(FuncInfo):
+    """`t_X = staticmethod(_x_token)` in a class body: the module-level
+    function seen under the name the class gives it."""
+    __slots__ = ('alias', 'target')
+
+    @property
+    def name(self):
+        return self.alias
+
+
 class ClassInfo:
     __slots__ = ('module', 'qualname', 'node', 'bases', 'methods')
 
@@ -126,6 +136,35 @@ class Module:
             elif isinstance(node, (ast.FunctionDef, ast.ClassDef)):
                 self.toplevel.add(node.name)
         self._walk_defs(self.tree.body, '', None, None)
+        self._class_aliases()
+
+    def _class_aliases(self):
+        for ci in list(self.classes.values()):
+            for st in ci.node.body:
+                if not (isinstance(st, ast.Assign) and len(
+                        st.targets) == 1 and isinstance(
+                        st.targets[0], ast.Name)):
+                    continue
+                v = st.value
+                if isinstance(v, ast.Call) and isinstance(
+                        v.func, ast.Name) and v.func.id in (
+                        'staticmethod', 'classmethod') and len(
+                        v.args) == 1:
+                    v = v.args[0]
+                if not isinstance(v, ast.Name):
+                    continue
+                tgt = self.functions.get(v.id)
+                nm = st.targets[0].id
+                if tgt is None or tgt.cls is not None or \
+                        tgt.parent_func is not None or nm in ci.methods:
+                    continue
+                a = AliasFuncInfo(self, '%s.%s' % (ci.qualname, nm),
+                                  tgt.node, ci, None)
+                a.alias = nm
+                a.target = tgt
+                a.is_method = True
+                self.functions[a.qualname] = a
+                ci.methods[nm] = a
 
     def _walk_defs(self, body, prefix, cls, pfunc, direct_cls=None):
         for node in body:
@@ -399,6 +438,22 @@ def walk_shallow(node, stop=(ast.FunctionDef, ast.AsyncFunctionDef,
         n = stack.pop()
         yield n
         if not first and isinstance(n, stop):
+            # decorators and default values of a nested def run in the
+            # enclosing scope, when the def statement is executed
+            if isinstance(n, (ast.FunctionDef, ast.AsyncFunctionDef)):
+                extra = list(n.decorator_list) + [
+                    d for d in n.args.defaults + n.args.kw_defaults
+                    if d is not None]
+                stack.extend(reversed(extra))
+            elif isinstance(n, ast.ClassDef):
+                stack.extend(reversed(list(n.decorator_list)))
+            continue
+        if first and isinstance(n, (ast.FunctionDef,
+                                    ast.AsyncFunctionDef)):
+            # the root's own decorators and defaults belong to the scope
+            # that defines it
+            first = False
+            stack.extend(reversed(list(n.body)))
             continue
         first = False
         stack.extend(reversed(list(ast.iter_child_nodes(n))))
